@@ -110,13 +110,16 @@ def run(pid, tier, seed, gate, replay=None):
         rrng = random.Random(seed + 11)
         rs = []
         for _ in range(60 if tier == "thorough" else 12):
-            lines = [f"cfg algo={rrng.choice(CC.ALGOS)} shards={rrng.choice([1, 2])} cap=4 rounds={80 if tier == 'thorough' else 40} "
+            # capacity well above the key set: nothing is ever evicted, so a key that an insert has written stays in memory
+            # (the rule below - a fetched value is as of the invocation of its fetch closure - is sound only then: with
+            # evictions, an insert made between the closure call and the lookup can be evicted again before the lookup)
+            lines = [f"cfg algo={rrng.choice(CC.ALGOS)} shards={rrng.choice([1, 2])} cap=64 rounds={80 if tier == 'thorough' else 40} "
                      f"jitter={rrng.randrange(1, 10**6)} reent=0 timeout=60"]
             for t in range(rrng.choice([2, 3])):
                 for _ in range(rrng.randrange(3, 8)):
                     lines.append(f"t{t} {rrng.choice(['gof', 'gof', 'ins', 'ins', 'get'])} {rrng.choice([0, 0, 1])}")
             rs.append("\n".join(lines) + "\n")
-        rres = C.pmap(lambda sc: CC.one("C02", sc), rs, workers=4)
+        rres = C.pmap(lambda sc: CC.one("C11", sc), rs, workers=4)
         rbad = [(sc, r) for sc, r in zip(rs, rres) if r[0]]
         race = dict(concurrent_runs=len(rs), operations=sum(r[2] for r in rres), violations=len(rbad))
         if rbad:
